@@ -699,4 +699,193 @@ theorem ocmp_trans (a b c : Val) (h1 : sameOrdered a b = true) (h2 : sameOrdered
         | (simp only [ocmp] at *; first | exact cmpInt_trans _ _ _ l1 l2 | exact cmpBool_trans _ _ _ l1 l2 | exact cmpSeq_trans _ _ _ l1 l2)
         | simp_all)
 
+
+/-! ### round 2: `eqSpec` is transitive (any nesting); equal ordered values are interchangeable in every comparison -/
+
+theorem eqSpecList_trans : (xs ys zs : List Val) →
+    (∀ x ∈ xs, ∀ y z, eqSpec x y = true → eqSpec y z = true → eqSpec x z = true) →
+    xs.length = ys.length → eqSpecList xs ys = true → eqSpecList ys zs = true → eqSpecList xs zs = true
+  | [], _, _, _, _, _, _ => by simp [eqSpecList]
+  | _ :: _, [], _, _, hl, _, _ => by simp at hl
+  | _ :: _, _ :: _, [], _, _, _, _ => by simp [eqSpecList]
+  | x :: xs, y :: ys, z :: zs, ih, hl, h1, h2 => by
+      simp only [eqSpecList, Bool.and_eq_true] at h1 h2 ⊢
+      exact ⟨ih x (List.mem_cons_self ..) y z h1.1 h2.1,
+        eqSpecList_trans xs ys zs (fun w hw => ih w (List.mem_cons_of_mem _ hw)) (by simpa using hl) h1.2 h2.2⟩
+
+def TransAt (a : Val) : Prop := ∀ b c, eqSpec a b = true → eqSpec b c = true → eqSpec a c = true
+
+theorem eqSpec_trans (a : Val) : TransAt a := by
+  refine Val.ind ?_ ?_ ?_ ?_ a
+  · intro xs ih b c h1 h2
+    cases b <;> simp only [eqSpec, Bool.false_eq_true] at h1
+    rename_i ys
+    cases c <;> simp only [eqSpec, Bool.false_eq_true] at h2
+    rename_i zs
+    simp only [eqSpec, Bool.and_eq_true, beq_iff_eq] at h1 h2 ⊢
+    exact ⟨h1.1.trans h2.1, eqSpecList_trans xs ys zs ih h1.1 h1.2 h2.2⟩
+  · intro m1 ih b c h1 h2
+    cases b <;> simp only [eqSpec, Bool.false_eq_true] at h1
+    rename_i m2
+    cases c <;> simp only [eqSpec, Bool.false_eq_true] at h2
+    rename_i m3
+    simp only [eqSpec, Bool.and_eq_true, beq_iff_eq, eqSpecMap_iff] at h1 h2 ⊢
+    refine ⟨h1.1.trans h2.1, fun kv hkv => ?_⟩
+    obtain ⟨w, hw, e1⟩ := h1.2 kv hkv
+    obtain ⟨u, hu, e2⟩ := h2.2 (kv.1, w) (find?_mem m2 kv.1 w hw)
+    exact ⟨u, hu, ih kv hkv w u e1 e2⟩
+  · intro xs _ b c h1 _
+    simp [eqSpec] at h1
+  · intro v hleaf b c h1 h2
+    have hc1 : clsOf v = clsOf b := by
+      by_cases hc : clsOf v = clsOf b
+      · exact hc
+      · rw [eqSpec_clsne _ _ hc] at h1; cases h1
+    have hc2 : clsOf b = clsOf c := by
+      by_cases hc : clsOf b = clsOf c
+      · exact hc
+      · rw [eqSpec_clsne _ _ hc] at h2; cases h2
+    cases v <;> cases b <;> simp [clsOf] at hc1 <;> cases c <;> simp [clsOf] at hc2 <;>
+      first
+        | (simp [Val.isLeaf] at hleaf; done)
+        | (simp_all [eqSpec]; done)
+        | skip
+    rename_i d1 d2 d3
+    cases d1 <;> cases d2 <;> cases d3 <;> simp_all [eqSpec]
+
+theorem ocmp_congr_left (a b c : Val) (h1 : sameOrdered a b = true) (h2 : sameOrdered b c = true)
+    (e : ocmp a b = .eq) : ocmp a c = ocmp b c := by
+  unfold sameOrdered at h1
+  split at h1 <;> first
+    | (simp at h1; done)
+    | (unfold sameOrdered at h2
+       split at h2 <;> first
+        | (simp at h2; done)
+        | (simp only [ocmp] at *; first
+            | (rw [(cmpInt_eq_iff _ _).mp e]; done) | (rw [(cmpBool_eq_iff _ _).mp e]; done) | (rw [(cmpSeq_eq_iff _ _).mp e]; done))
+        | simp_all)
+
+theorem ocmp_congr_right (a b c : Val) (h1 : sameOrdered a b = true) (h2 : sameOrdered b c = true)
+    (e : ocmp b c = .eq) : ocmp a c = ocmp a b := by
+  unfold sameOrdered at h1
+  split at h1 <;> first
+    | (simp at h1; done)
+    | (unfold sameOrdered at h2
+       split at h2 <;> first
+        | (simp at h2; done)
+        | (simp only [ocmp] at *; first
+            | (rw [(cmpInt_eq_iff _ _).mp e]; done) | (rw [(cmpBool_eq_iff _ _).mp e]; done) | (rw [(cmpSeq_eq_iff _ _).mp e]; done))
+        | simp_all)
+
+/-- `<=` of the mathematical order is transitive -/
+theorem ocmp_le_trans (a b c : Val) (h1 : sameOrdered a b = true) (h2 : sameOrdered b c = true)
+    (l1 : ocmp a b ≠ .gt) (l2 : ocmp b c ≠ .gt) : ocmp a c ≠ .gt := by
+  cases e1 : ocmp a b with
+  | gt => exact absurd e1 l1
+  | eq => rw [ocmp_congr_left a b c h1 h2 e1]; exact l2
+  | lt =>
+    cases e2 : ocmp b c with
+    | gt => exact absurd e2 l2
+    | eq => rw [ocmp_congr_right a b c h1 h2 e2, e1]; simp
+    | lt => rw [ocmp_trans a b c h1 h2 e1 e2]; simp
+
+/-! ### round 2: a value equal to `b` has every type `b` has (so transitivity of `==` needs no third typing hypothesis) -/
+
+theorem sameType_cls (a b : Val) (h : sameType a b = true) : clsOf a = clsOf b := by
+  by_cases hc : clsOf a = clsOf b
+  · exact hc
+  · exfalso
+    cases a <;> cases b <;> simp [clsOf] at hc <;> simp [sameType] at h
+
+theorem keysOfCls_of_mem (c : Key) : (m : List (Key × Val)) → (∀ kv ∈ m, kv.1.sameCls c = true) → keysOfCls c m = true
+  | [], _ => rfl
+  | (k, v) :: rest, h => by
+      simp only [keysOfCls, Bool.and_eq_true]
+      exact ⟨h (k, v) (List.mem_cons_self ..), keysOfCls_of_mem c rest (fun z hz => h z (List.mem_cons_of_mem _ hz))⟩
+
+theorem sameTypeMap_iff : (m1 m2 : List (Key × Val)) →
+    (sameTypeMap m1 m2 = true ↔ ∀ kv ∈ m1, ∀ w, find? kv.1 m2 = some w → sameType kv.2 w = true)
+  | [], _ => by simp [sameTypeMap]
+  | (k, v) :: rest, m2 => by
+      simp only [sameTypeMap, Bool.and_eq_true, List.mem_cons, forall_eq_or_imp, sameTypeMap_iff rest m2]
+      constructor
+      · rintro ⟨h1, h2⟩
+        refine ⟨?_, h2⟩
+        intro w hw
+        simpa [hw] using h1
+      · rintro ⟨h1, h2⟩
+        refine ⟨?_, h2⟩
+        cases hf : find? k m2 with
+        | none => rfl
+        | some w => exact h1 w hf
+
+def STAt (a : Val) : Prop := ∀ b c, eqSpec a b = true → sameType b c = true → sameType a c = true
+
+theorem sameTypeList_of_eq : (xs ys zs : List Val) → (∀ x ∈ xs, STAt x) → xs.length = ys.length →
+    eqSpecList xs ys = true → sameTypeList ys zs = true → sameTypeList xs zs = true
+  | [], _, _, _, _, _, _ => by simp [sameTypeList]
+  | _ :: _, [], _, _, hl, _, _ => by simp at hl
+  | _ :: _, _ :: _, [], _, _, _, _ => by simp [sameTypeList]
+  | x :: xs, y :: ys, z :: zs, ih, hl, h1, h2 => by
+      simp only [eqSpecList, sameTypeList, Bool.and_eq_true] at h1 h2 ⊢
+      exact ⟨ih x (List.mem_cons_self ..) y z h1.1 h2.1,
+        sameTypeList_of_eq xs ys zs (fun w hw => ih w (List.mem_cons_of_mem _ hw)) (by simpa using hl) h1.2 h2.2⟩
+
+/-- a value equal to `b` is of every type `b` is of -/
+theorem sameType_of_eqSpec (a : Val) : STAt a := by
+  refine Val.ind ?_ ?_ ?_ ?_ a
+  · intro xs ih b c h1 h2
+    cases b <;> simp only [eqSpec, Bool.false_eq_true] at h1
+    rename_i ys
+    cases c <;> simp only [sameType, Bool.false_eq_true] at h2
+    rename_i zs
+    simp only [Bool.and_eq_true, beq_iff_eq] at h1
+    simp only [sameType]
+    exact sameTypeList_of_eq xs ys zs ih h1.1 h1.2 h2
+  · intro m1 ih b c h1 h2
+    cases b <;> simp only [eqSpec, Bool.false_eq_true] at h1
+    rename_i m2
+    cases c <;> simp only [sameType, Bool.false_eq_true] at h2
+    rename_i m3
+    simp only [Bool.and_eq_true, beq_iff_eq, eqSpecMap_iff] at h1
+    simp only [sameType, Bool.and_eq_true] at h2 ⊢
+    obtain ⟨hl, hall⟩ := h1
+    refine ⟨?_, ?_⟩
+    · cases m1 with
+      | nil =>
+        cases m2 with
+        | nil => exact h2.1
+        | cons _ _ => simp at hl
+      | cons kv1 rest1 =>
+        cases m2 with
+        | nil => simp at hl
+        | cons kv2 rest2 =>
+          obtain ⟨k1, v1⟩ := kv1
+          obtain ⟨k2, v2⟩ := kv2
+          simp only [Bool.and_eq_true] at h2 ⊢
+          have hk : ∀ kv ∈ (k1, v1) :: rest1, kv.1.sameCls k2 = true := by
+            intro kv hkv
+            obtain ⟨w, hw, _⟩ := hall kv hkv
+            exact keysOfCls_mem k2 _ h2.1.1 (kv.1, w) (find?_mem _ kv.1 w hw)
+          have h12 : k1.sameCls k2 = true := hk (k1, v1) (List.mem_cons_self ..)
+          have h21 : k2.sameCls k1 = true := by rw [Key.sameCls_symm]; exact h12
+          refine ⟨keysOfCls_of_mem k1 _ (fun kv hkv => Key.sameCls_trans _ _ _ (hk kv hkv) h21),
+            keysOfCls_of_mem k1 _ (fun kv hkv => Key.sameCls_trans _ _ _ (keysOfCls_mem k2 _ h2.1.2 kv hkv) h21)⟩
+    · rw [sameTypeMap_iff]
+      intro kv hkv u hu
+      obtain ⟨w, hw, e⟩ := hall kv hkv
+      exact ih kv hkv w u e ((sameTypeMap_iff m2 m3).mp h2.2 (kv.1, w) (find?_mem m2 kv.1 w hw) u hu)
+  · intro xs _ b c h1 _
+    simp [eqSpec] at h1
+  · intro v hleaf b c h1 h2
+    have hc1 : clsOf v = clsOf b := by
+      by_cases hc : clsOf v = clsOf b
+      · exact hc
+      · rw [eqSpec_clsne _ _ hc] at h1; cases h1
+    have hc2 := sameType_cls b c h2
+    cases v <;> cases b <;> simp [clsOf] at hc1 <;> cases c <;> simp [clsOf] at hc2 <;>
+      first
+        | (simp [Val.isLeaf] at hleaf; done)
+        | (simp [sameType]; done)
+        | (simp [eqSpec] at h1; done)
 end Cel
